@@ -57,7 +57,7 @@ func isLogCall(e ast.Expr) bool {
 		return false
 	}
 	// schedule points of the verification hooks are no-ops in the default build
-	if id, ok := c.Fun.(*ast.Ident); ok && id.Name == "verifPoint" {
+	if id, ok := c.Fun.(*ast.Ident); ok && (id.Name == "verifPoint" || id.Name == "verifPointTr") {
 		return true
 	}
 	s, ok := c.Fun.(*ast.SelectorExpr)
@@ -347,8 +347,8 @@ func genTransportSkel(repo string) (string, error) {
 		{"transport", "asyncCall"}, {"transport", "call"}, {"transport", "shutdown"},
 		{"", "newTransport"}, {"", "newCallExchange"}, {"", "newTransportCall"},
 		{"", "newTunnel"}, {"tunnel", "Write"}, {"tunnel", "Read"}, {"tunnel", "Close"},
-		{"endpointClient", "serve"}, {"endpointClient", "Close"},
-		{"Endpoint", "sendAccept"}, {"Endpoint", "serve"}, {"Endpoint", "Accept"}, {"Endpoint", "Close"},
+		{"endpointClient", "serve"}, {"endpointClient", "Close"}, {"endpointClient", "Dial"},
+		{"", "newEndpoint"}, {"Endpoint", "sendAccept"}, {"Endpoint", "serve"}, {"Endpoint", "Accept"}, {"Endpoint", "Close"},
 		{"connMailBox", "Close"}, {"connMailBox", "receive"}, {"connMailBox", "deliver"},
 		{"closerOnce", "Close"},
 	}
